@@ -45,9 +45,6 @@ STRUCTS = [
     dict(name='S21', beh=None, kind='named', fields=[F('w', 'Wide', '', 'wide4'), F('v', 'Vec<u8>')]),
     dict(name='S22', beh=None, kind='named', fields=[F('w', 'Wide', '', 'wide4')]),
     dict(name='S23', beh=None, kind='named', fields=[F('x', 'Wide', 'sd'), F('w', 'Wide', '', 'wide4'), F('o', 'Option<u16>', '', 'leg_u16')]),
-    # field names that coincide with local variables a macro might use (identifier hygiene)
-    dict(name='S24', beh=None, kind='named', fields=[F('start', 'usize'), F('end', 'usize'), F('len', 'usize'), F('offset', 'usize'), F('index', 'usize'), F('i', 'u8')]),
-    dict(name='S25', beh=None, kind='named', fields=[F('end', 'usize'), F('buf', 'Vec<u8>'), F('start', 'usize'), F('items', 'Vec<u16>'), F('len', 'u8'), F('offset', 'u16')]),
     # `with` combined with a one-sided skip: the field is still live in the other direction
     dict(name='S26', beh=None, kind='named', fields=[F('a', 'u8'), F('w', 'Wide', 'd', 'wide4'), F('c', 'u16')]),
     dict(name='S27', beh=None, kind='named', fields=[F('a', 'u8'), F('w', 'Wide', 's', 'wide4'), F('c', 'u16')]),
